@@ -22,8 +22,9 @@ func floatToString(value float64, bitsize int) string {
 		}
 		return "Infinity"
 	}
-	exponent := math.Log10(math.Abs(value))
-	if exponent >= 21 || exponent < -6 {
+	// ECMA-262 9.8.1: exponent form from 1e21 up and below 1e-6; compare the value itself,
+	// math.Log10 rounds (it returns 21 for the largest double below 1e21).
+	if abs := math.Abs(value); abs >= 1e21 || abs < 1e-6 {
 		return matchLeading0Exponent.ReplaceAllString(strconv.FormatFloat(value, 'g', -1, bitsize), "$1$2")
 	}
 	return strconv.FormatFloat(value, 'f', -1, bitsize)
